@@ -42,3 +42,14 @@ package vars
 
 //@ func (*Stack).Load props C04,C07
 //@   requires stackWF(s) && s.sp >= uintptr(StateSize)
+
+// Buffers obtained from the pools are exclusively owned by the caller until
+// they are handed back (sync.Pool semantics; ownership is an assumption here
+// and the obligation of the Free* callers, see C06).
+//@ func NewBytes assumed "sync.Pool: returns a pooled or new *[]byte, exclusively owned, length 0"
+//@   ensures result != nil && fresh(result) && len(*result) == 0 && (base(*result) == 0 || fresh(*result))
+//@ func FreeBytes assumed "sync.Pool.Put: the buffer is handed back; no effect visible to the caller"
+//@   requires p != nil
+//@ func NewBuffer assumed "sync.Pool: returns a pooled or new *bytes.Buffer, exclusively owned"
+//@   ensures result != nil && fresh(result)
+//@ func FreeBuffer assumed "sync.Pool.Put: the buffer is handed back; no effect visible to the caller"
